@@ -5,6 +5,7 @@ import Gsd.Driver.C07
 import Gsd.Driver.C08
 import Gsd.Driver.C09
 import Gsd.Driver.C10
+import Gsd.Driver.C11
 import Gsd.Driver.C12
 import Gsd.Driver.C13
 import Gsd.Driver.C18
@@ -18,6 +19,7 @@ def main (args : List String) : IO UInt32 := do
   | "C08" :: rest => Gsd.Driver.C08.main rest
   | "C09" :: rest => Gsd.Driver.C09.main rest
   | "C10" :: rest => Gsd.Driver.C10.main rest
+  | "C11" :: rest => Gsd.Driver.C11.main rest
   | "C12" :: rest => Gsd.Driver.C12.main rest
   | "C13" :: rest => Gsd.Driver.C13.main rest
   | "C18" :: rest => Gsd.Driver.C18.main rest
